@@ -96,8 +96,14 @@ func c12KeyExpr(r *rt.Rand) *gen.Node {
 	case 0, 1:
 		return gen.Str(c12KeyPool[r.Intn(len(c12KeyPool))])
 	case 2:
+		if r.Chance(1, 3) {
+			return gen.IntPadded(int64(r.Range(8, 19)), r.Range(3, 4)) // 010 is ten, 0017 seventeen
+		}
 		return gen.Int(int64(r.Range(0, 12)))
 	case 3:
+		if r.Chance(1, 3) {
+			return gen.Bin("+", gen.Str("p"), gen.Call("str", gen.IntPadded(int64(r.Range(8, 12)), 3)))
+		}
 		return gen.Bin("+", gen.Str("p"), gen.Call("str", gen.Int(int64(r.Range(1, 3)))))
 	case 4:
 		return gen.Call("upper", gen.Str([]string{"ka", "kb", "p1"}[r.Intn(3)]))
@@ -108,7 +114,13 @@ func c12KeyExpr(r *rt.Rand) *gen.Node {
 }
 
 func c12ValExpr(r *rt.Rand) (*gen.Node, bool) {
-	switch r.Intn(14) {
+	switch r.Intn(17) {
+	case 14: // `key` inside the numeric arguments of a call
+		return gen.Call("substr", gen.Key(), gen.Int(0), gen.Bin("-", gen.Call("strlen", gen.Key()), gen.Int(1))), true
+	case 15:
+		return gen.Call("substr", gen.Str("uvwxyz0123456789"), gen.Int(0), gen.Call("strlen", gen.Key())), true
+	case 16:
+		return gen.IntPadded(int64(r.Range(8, 40)), r.Range(3, 5)), false
 	case 11: // two concatenations starting at `key` alive at the same time
 		return gen.Bin("+", gen.Bin("+", gen.Key(), gen.Str("a")), gen.Bin("+", gen.Key(), gen.Str("b"))), true
 	case 12:
